@@ -1,5 +1,6 @@
 import SaModel.Build.Dec
 import SaModel.Spec.WF
+import SaModel.Lemmas.C03Finish
 /-
 C03 — every produced array is a well-formed Arrow array of the declared field.
 
@@ -52,5 +53,86 @@ theorem duplicateLast_spec (offs offs' : List Int) (h : duplicateLast offs = .ok
 /-- a fresh builder for any list-like type starts with the single offset 0 -/
 example : newDT "$.a" (.list (.mk "element" .int32 false [])) true [] =
     .ok (.list "$.a" false ⟨"element", false, []⟩ (some []) [0] (.leaf "$.a.element" (.int .i32) none [])) := by decide
+
+/-! ### the physical layer: bitmaps (Lemmas/Bits.lean) -/
+
+/-- bit `i` of a finished bitmap is the abstract bit `i` of the builder -/
+theorem getBit_packBits (bs : List Bool) (i : Nat) (h : i < bs.length) : getBit ⟨packBits bs, 0⟩ i = .ok bs[i] :=
+  Lemmas.Bits.getBit_packBits bs i h
+
+/-- padding bits of a finished bitmap are clear -/
+theorem getBit_packBits_pad (bs : List Bool) (i : Nat) (h1 : bs.length ≤ i) (h2 : i < 8 * (packBits bs).length) :
+    getBit ⟨packBits bs, 0⟩ i = .ok false :=
+  Lemmas.Bits.getBit_packBits_pad bs i h1 h2
+
+/-- reading past the last byte is an error -/
+theorem getBit_packBits_oob (bs : List Bool) (i : Nat) (h : 8 * (packBits bs).length ≤ i) :
+    getBit ⟨packBits bs, 0⟩ i = fail "Invalid access in bitset" :=
+  Lemmas.Bits.getBit_packBits_oob bs i h
+
+/-- offset law (what a slice does to a bitmap) -/
+theorem getBit_offset (d : Bytes) (o k i : Nat) : getBit ⟨d, o + k⟩ i = getBit ⟨d, o⟩ (k + i) :=
+  Lemmas.Bits.getBit_offset d o k i
+
+/-! ### the finished array means what the state holds (Lemmas/C03Finish.lean) -/
+
+/-- **`finish_decode`.**  For every builder state satisfying the state invariant, the array `into_array` produces
+decodes — by the Arrow reading rules, slot by slot, through packed bitmaps — to exactly the rows the state holds.
+`Faithful b` excludes the two recorded exceptions (negations below): `FixedSizeBinary(0)` holding rows, and
+dictionary slots holding the dummy key 0 while the dictionary has no value. -/
+theorem finish_decode (ext : Ext) (b : B) (a : Arr) (hw : WFB b) (hf : Lemmas.C03.Faithful b)
+    (h : finish ext b = .ok a) : decodeAll a = (dec b).map .ok :=
+  Lemmas.C03.finish_decode ext b a hw hf h
+
+/-- row-wise form: `Spec.decode (finish b) i = (dec b)[i]` -/
+theorem finish_decode_row (ext : Ext) (b : B) (a : Arr) (hw : WFB b) (hf : Lemmas.C03.Faithful b)
+    (h : finish ext b = .ok a) (i : Nat) (hi : i < (dec b).length) : decode a i = .ok (dec b)[i] := by
+  unfold decode
+  rw [finish_decode ext b a hw hf h]
+  exact Lemmas.C03.slot_map_ok _ i hi
+
+/-- the finished array has as many rows as the state -/
+theorem finish_len (ext : Ext) (b : B) (a : Arr) (hw : WFB b) (hf : Lemmas.C03.Faithful b)
+    (h : finish ext b = .ok a) : Spec.Arr.len a = (dec b).length := by
+  unfold Spec.Arr.len
+  rw [finish_decode ext b a hw hf h, List.length_map]
+
+/-- all columns of a struct builder at once (what `build_arrays` returns) -/
+theorem finishFields_decode (ext : Ext) (fs : BL) (afs : ArrFields) (len : Nat) (hw : WFL fs len)
+    (hf : Lemmas.C03.FaithfulL fs) (h : finishFields ext fs = .ok afs) :
+    decodeFields afs = (decCols fs).map fun c => (c.1, c.2.map .ok) :=
+  Lemmas.C03.finishFields_decode ext fs afs (Lemmas.C03.WFL_WFBs fs len hw) hf h
+
+/-- **known finding (FixedSizeBinary(0)).**  Without `Faithful` the statement is false: a `FixedSizeBinary(0)`
+builder holding one row finishes into an array with no rows (the length is derived from `data.len() / n`). -/
+theorem finish_decode_fixedSizeBinary0_false :
+    ∃ (b : B) (a : Arr), WFB b ∧ finish {} b = .ok a ∧ decodeAll a ≠ (dec b).map .ok :=
+  ⟨.fixedSizeBinary "$.a" 0 1 none [] 0, .fixedSizeBinary 0 none [],
+    by simp [WFB, VLen], rfl, by decide⟩
+
+/-- **dictionary placeholder.**  Without `Faithful` the statement is false for a dictionary slot holding the dummy
+key 0 while no value has been pushed: `into_array` appends the placeholder value `""`, so the finished slot reads
+the empty string while the state holds no value for it (`dec` reads null).  Such slots are only written by
+`serialize_default`, i.e. hidden under a null parent. -/
+theorem finish_decode_dictionary_dummy_false :
+    ∃ (b : B) (a : Arr), WFB b ∧ finish {} b = .ok a ∧ decodeAll a ≠ (dec b).map .ok :=
+  ⟨.dictionary "$.a" (.leaf "$.a.key" (.int .u32) none [0]) (.bytes "$.a.value" .utf8 none [0] []) [],
+   .dictionary (.prim .uint32 none [0]) (.bytes .utf8 none [0, 0] []),
+    by simp [WFB, VLen, OffsOK, dec, maskNull, leafVal, pairs],
+    by
+      have hp : pushScalar {} (.bytes "$.a.value" .utf8 none [0] []) (.str "") =
+          .ok (.bytes "$.a.value" .utf8 none [0, 0] []) := by
+        simp [pushScalar, isUtf8Ty, scalarToString, strBytes, setValidity, duplicateLast, incrementLast, bind,
+          Except.bind, offMax, isLargeTy, pure, Except.pure]
+      simp [finish, hp, ctx, finishLeaf, finishValidity, primOfInt, B.isNullable, B.rows, appendEmptyStr, bind,
+        Except.bind, pure, Except.pure],
+    by decide⟩
+
+/-! ### non-vacuity of `finish_decode`: nullable list of nullable ints, rows `[[1, null], null]` -/
+example : ∃ b a, WFB b ∧ Lemmas.C03.Faithful b ∧ finish {} b = .ok a ∧
+    dec b = [.list (.cons (.int 1) (.cons .null .nil)), .null] :=
+  ⟨.list "$.a" false ⟨"element", true, []⟩ (some [true, false]) [0, 2, 2]
+      (.leaf "$.a.element" (.int .i32) (some [true, false]) [1, 0]), _,
+    by simp [WFB, VLen, OffsOK, dec, maskNull], by simp [Lemmas.C03.Faithful], rfl, by decide⟩
 
 end SaModel.Props.C03
